@@ -72,6 +72,11 @@ def mappings():
         def __repr__(self):
             return f"t{self.id}"
 
+        def __hash__(self):
+            # equality stays identity; the hash is made independent of the object's address so that the element `h.tags.pop()` removes
+            # (and with it every counted figure) is the same in every run.  Read from the instance dict: never triggers a load.
+            return self.__dict__.get("id", -1)
+
     class Hh(Base):
         __tablename__ = "hh"
         id = Column(Integer, primary_key=True)
